@@ -248,3 +248,84 @@ func (c *Ctx) tagExcludedOnEdge(v ssa.Value, k int64, pred, succ *ssa.BasicBlock
 	}
 	return false
 }
+
+// predicateTrueImplies: every return of the boolean function p that can be true lies where `holds` is satisfied
+// by the conditions controlling it (a test moved into a named predicate still counts as that test).
+func (c *Ctx) predicateTrueImplies(p *ssa.Function, holds func(conds []ctrlCond) bool) bool {
+	if p == nil || len(p.Blocks) == 0 || p.Signature.Results().Len() != 1 {
+		return false
+	}
+	ok, n := true, 0
+	var mayBeTrue func(v ssa.Value, conds []ctrlCond, depth int) bool
+	mayBeTrue = func(v ssa.Value, conds []ctrlCond, depth int) bool {
+		if depth > 6 {
+			return true
+		}
+		if k, isK := v.(*ssa.Const); isK {
+			bv, isB := constBool(k)
+			return !isB || bv
+		}
+		if holds(conds) {
+			return false
+		}
+		if phi, isPhi := v.(*ssa.Phi); isPhi {
+			for e, ev := range phi.Edges {
+				pred := phi.Block().Preds[e]
+				if mayBeTrue(ev, edgeConds(pred, phi.Block()), depth+1) {
+					return true
+				}
+			}
+			return false
+		}
+		// a negated test of the wanted kind: !F(x) is true only where F(x) is false
+		if u, isNot := v.(*ssa.UnOp); isNot && u.Op == token.NOT {
+			if holds([]ctrlCond{{Cond: u.X, Edge: 1}}) {
+				return false
+			}
+		}
+		return true
+	}
+	eachInstr(p, func(in ssa.Instruction) {
+		ret, isRet := in.(*ssa.Return)
+		if !isRet || len(ret.Results) != 1 {
+			return
+		}
+		n++
+		if mayBeTrue(retVal(ret, 0), controlling(ret.Block()), 0) {
+			ok = false
+		}
+	})
+	return ok && n > 0
+}
+
+// testedFalse: where the conditions hold, F(arg) is known to be false: directly, or through a predicate of the
+// module that is handed the same argument and is true only where F(its parameter) is false.
+func (c *Ctx) testedFalse(conds []ctrlCond, F *types.Func, arg ssa.Value) bool {
+	for _, cc := range conds {
+		cond, edge := cc.Cond, cc.Edge
+		if u, ok := cond.(*ssa.UnOp); ok && u.Op == token.NOT {
+			cond, edge = u.X, 1-edge
+		}
+		call, ok := cond.(*ssa.Call)
+		if !ok {
+			continue
+		}
+		if isCallTo(call, F) && edge == 1 && len(call.Common().Args) > 0 && sameExpr(call.Common().Args[0], arg) {
+			return true
+		}
+		p := call.Common().StaticCallee()
+		if p == nil || !isModuleSSA(p) || edge != 0 || isCallTo(call, F) {
+			continue
+		}
+		for ai, a := range call.Common().Args {
+			if ai >= len(p.Params) || !sameExpr(a, arg) {
+				continue
+			}
+			param := p.Params[ai]
+			if c.predicateTrueImplies(p, func(pc []ctrlCond) bool { return c.testedFalse(pc, F, param) }) {
+				return true
+			}
+		}
+	}
+	return false
+}
